@@ -260,3 +260,39 @@ def spec_c18(tier, seed):
         stubs=['S1', 'S2', 'S3', 'S5 (validated)'],
         technique_extra='; stub translation validation by differential execution',
     )
+
+
+E2_MS = Script('E2 to_milliseconds (AST->SMT, exact binary64 RNE in integers)', ['-m', 'vlib.e2_to_ms'], timeout=900)
+
+
+def spec_c16(tier, seed):
+    q = tier == 'quick'
+    pairs = [[1, 5], [0, 7], [4, 2], [3, 9], [6, 8], [7, 0]] if q else [[a, b] for a in range(10) for b in range(10) if a != b][::3]
+    return dict(
+        conds=[
+            E2_MS,
+            Cond('c16_setup', 'c_setup_content', parts=[{'pair': p, 'elen': 3, 'plen': [1, 1]} for p in pairs]
+                 + [{'pair': [1, 5], 'elen': e, 'plen': pl} for e, pl in ((0, [0, 0]), (4, [3, 3]))], timeout=400),
+            Cond('c16_setup', 'c_setup_first', parts=[{'kind': k} for k in range(5)], timeout=400),
+            Cond('c16_setup', 'c_server_setup', parts=[{'elen': 3, 'plen': [1, 1]}, {'elen': 0, 'plen': [0, 2]}], timeout=400),
+        ],
+        explanation='(E2) the current source of to_milliseconds is translated from its AST into integer formulas with an exact '
+                    'encoding of binary64 round-to-nearest-even; z3 shows for every whole-millisecond period up to 2^31-1 ms that '
+                    'the result is exactly that many ms and for every microsecond-valued period that it is a nearest ms. '
+                    '(E1) a real RSocketClient on the virtual loop: the first frame is a SETUP whose decoded fields equal the '
+                    'configuration (encodings with symbolic bytes, lease flag, payload, period pairs); SETUP stays first and '
+                    'single when a request of 5 kinds is issued before/while/after a connect() that suspends for a symbolic '
+                    'time (keep-alive ticks inside); a real RSocketServer answers every symbolic SETUP/RESUME with on_setup '
+                    'once or the matching ERROR code on stream 0 and keeps serving.',
+        bounds=['E2: periods 0..2^31-1 ms incl. every sub-millisecond part (full range, no sampling)',
+                'E1 content: %d period pairs from 10 representative periods, encodings: 4 well-known + custom bytes of length 0/3/4 symbolic, payload lengths 0..3' % len(pairs),
+                'E1 order: connect suspended 0..2500 ms (symbolic), request at 4 moments x 5 kinds, 0..2 s afterwards',
+                'E1 server: all flag/version/period/token/encoding values of SETUP (symbolic), RESUME'],
+        outside=['periods >= 2^31 ms (do not fit the wire field)', 'symbolic timedelta inside the endpoint (engine returned a non-reproducing counterexample; replaced by E2 + representatives)'],
+        functions=['rsocket.datetime_helpers.to_milliseconds', 'rsocket.frame_builders.to_setup_frame', 'rsocket.rsocket_base.RSocketBase._create_setup_frame',
+                   'rsocket.rsocket_base.RSocketBase.connect', 'rsocket.rsocket_client.RSocketClient.connect', 'rsocket.rsocket_client.RSocketClient._connect_new_transport',
+                   'rsocket.rsocket_base.RSocketBase.send_priority_frame', 'rsocket.rsocket_base.RSocketBase.handle_setup', 'rsocket.rsocket_base.RSocketBase.handle_resume',
+                   'rsocket.rsocket_base.RSocketBase._receiver_listen', 'rsocket.rsocket_base.RSocketBase._sender', 'rsocket.extensions.mimetypes.ensure_encoding_name'],
+        stubs=['S1', 'S2', 'S3', 'S6', 'S7 SimTransport (connect() suspends on demand)', 'S8'],
+        technique_extra='; E2: AST->SMT translation with exact integer encoding of IEEE-754 binary64 RNE (z3), translator validated against the real function on 124 vectors per run',
+    )
